@@ -248,7 +248,7 @@ fn gen_cases(seed: u64, thorough: bool) -> Vec<Case> {
         v.last_mut().unwrap().cc = [fill; 32];
     }
     // E. random
-    let n_rand = if thorough { 3000 } else { 60 };
+    let n_rand = if thorough { 3000 } else { 90 };
     for j in 0..n_rand {
         let l = match r.next_u32() % 20 { 0 => (r.next_u32() % 301) as usize, 1..=3 => (r.next_u32() % 40) as usize, _ => (r.next_u32() % 9) as usize };
         let hardened_case = j % 7 == 0;
@@ -533,7 +533,26 @@ fn parse_replay(txt: &str) -> Option<Case> {
     Some(Case { kind: "replay".into(), prefix: field("prefix")?, root: point_of_hex(&field("root")?)?, cc, path, parse: false })
 }
 
+/// `probe=raw`: what the code does with the raw enum value ChildIndex::Normal(2^31) (outside the model, see
+/// Model/Bip32.v) and with an identity parent; prints only, not part of the check.
+fn probe() -> i32 {
+    let g = ProjectivePoint::GENERATOR;
+    let cc = [7u8; 32];
+    let r = derive_xpub(Prefix::XPub, &g, cc, DerivationPath::new(vec![ChildIndex::Normal(HARD)]));
+    match r {
+        Ok(x) => println!("derive_xpub(G, 07..07, [Normal(0x80000000)]) = Ok child_number={:#x} depth={} {}", x.child_number, x.depth, x.to_string(true)),
+        Err(e) => println!("derive_xpub(G, 07..07, [Normal(0x80000000)]) = Err {:?}", e),
+    }
+    let r = derive_child_pubkey(&ProjectivePoint::IDENTITY, cc, &ChildIndex::Normal(0));
+    match r {
+        Ok((o, k, _)) => println!("derive_child_pubkey(IDENTITY, 07..07, 0) = Ok offset={} child={} (child == offset*G: {})", hex_of_scalar(&o), point_hex(&k), k == g * o),
+        Err(e) => println!("derive_child_pubkey(IDENTITY, ..) = Err {:?}", e),
+    }
+    0
+}
+
 pub fn run(kv: &Args) -> i32 {
+    if kv.get("probe").is_some() { return probe(); }
     let seed = kv.u64("seed", 1);
     let out = kv.str("out", "/verif/build/run/C12");
     std::fs::create_dir_all(&out).unwrap();
